@@ -26,10 +26,26 @@ impl Prop for C21 {
             item: 2,
             delitem: 1,
             pubmode: 1,
+            modsub: 1,
+            setmode: 2,
+            moditem: 2,
+            trigger: 2,
+            resend: 1,
+            transfer: 1,
             max_len: 60,
         };
-        for _ in 0..n {
-            gen_case(rng, &w, tier == Tier::Thorough, out);
+        // a third of the cases (all of them when there is room) are the single-step enumeration
+        let singles = if n >= 3 * single_step_count() / 2 { single_step_count() } else { n / 3 };
+        let off = rng.below(single_step_count() as u64) as usize;
+        for i in 0..singles {
+            gen_single_step(off + i, out);
+        }
+        for _ in 0..(n - singles) {
+            if rng.chance(1, 5) {
+                gen_scenario(rng, out);
+            } else {
+                gen_case(rng, &w, tier == Tier::Thorough, out);
+            }
         }
     }
 
@@ -59,6 +75,12 @@ struct ItemRef {
     /// index into the node's write history of the last delivered value
     hist_pos: usize,
     delivered_any: bool,
+    /// a ResendData, a triggering link or a monitoring mode change may legitimately repeat a value
+    loose: bool,
+    ever_reportable: bool,
+    mode: i64,
+    /// handles the item had before a ModifyMonitoredItems (queued notifications keep theirs)
+    old_handles: Vec<u32>,
 }
 
 struct SubRef {
@@ -67,6 +89,7 @@ struct SubRef {
     last_elapsed: Option<i64>,
     items: BTreeMap<u32, ItemRef>, // by item id
     next_item: u32,
+    has_links: bool,
 }
 
 struct R {
@@ -126,6 +149,7 @@ impl Runner for R {
                         last_elapsed: None,
                         items: BTreeMap::new(),
                         next_item: 1,
+                        has_links: false,
                     },
                 );
             }
@@ -153,6 +177,10 @@ impl Runner for R {
                             undelivered: VecDeque::new(),
                             hist_pos: 0,
                             delivered_any: false,
+                            loose: false,
+                            ever_reportable: reporting || (toks[6] == "1" && s.has_links),
+                            mode: if reporting { 2 } else if toks[6] == "1" { 1 } else { 0 },
+                            old_handles: Vec::new(),
                         },
                     );
                     s.next_item = iid + 1;
@@ -162,6 +190,63 @@ impl Runner for R {
                 if *ok {
                     if let Some(s) = self.subs.get_mut(sub_id) {
                         s.items.remove(item_id);
+                    }
+                }
+            }
+            Observed::ModSub { sub_id, ok, interval } => {
+                if *ok {
+                    if let Some(s) = self.subs.get_mut(sub_id) {
+                        s.interval = *interval;
+                    }
+                }
+            }
+            Observed::SetMode { sub_id, item_id, mode, ok } => {
+                if *ok {
+                    if let Some(s) = self.subs.get_mut(sub_id) {
+                        let links = s.has_links;
+                        if let Some(it) = s.items.get_mut(item_id) {
+                            it.mode = *mode;
+                            it.reporting = *mode == 2;
+                            it.exact = false;
+                            it.loose = true;
+                            it.ever_reportable |= *mode == 2 || (*mode == 1 && links);
+                        }
+                    }
+                }
+            }
+            Observed::ModItem { sub_id, item_id, handle, interval_sampling, ok } => {
+                if *ok {
+                    if let Some(s) = self.subs.get_mut(sub_id) {
+                        if let Some(it) = s.items.get_mut(item_id) {
+                            if it.handle != *handle {
+                                let h = it.handle;
+                                it.old_handles.push(h);
+                            }
+                            it.handle = *handle;
+                            it.exact = it.exact && *interval_sampling;
+                        }
+                    }
+                }
+            }
+            Observed::Trigger { sub_id, ok } => {
+                if *ok {
+                    if let Some(s) = self.subs.get_mut(sub_id) {
+                        s.has_links = true;
+                        for it in s.items.values_mut() {
+                            it.exact = false;
+                            it.loose = true;
+                            it.ever_reportable |= it.mode >= 1;
+                        }
+                    }
+                }
+            }
+            Observed::Resend(sub_id, ok) => {
+                if *ok {
+                    if let Some(s) = self.subs.get_mut(sub_id) {
+                        for it in s.items.values_mut() {
+                            it.exact = false;
+                            it.loose = true;
+                        }
                     }
                 }
             }
@@ -211,6 +296,15 @@ impl Runner for R {
             _ => {}
         }
 
+        // items whose bookkeeping is no longer exact (mode change, triggering, ResendData, modify) only keep the order check
+        for s in self.subs.values_mut() {
+            for it in s.items.values_mut() {
+                if !it.exact {
+                    it.undelivered.clear();
+                }
+            }
+        }
+
         // subscriptions that no longer exist in the session (expired / deleted)
         let alive: Vec<i64> = self.pipe.vs.subscription_ids().iter().map(|r| self.pipe.norm_sub(*r)).collect();
 
@@ -250,18 +344,18 @@ impl Runner for R {
                     let item = self
                         .subs
                         .get_mut(&r.sub_id)
-                        .and_then(|s| s.items.values_mut().find(|i| i.handle == e.handle));
+                        .and_then(|s| s.items.values_mut().find(|i| i.handle == e.handle || i.old_handles.contains(&e.handle)));
                     let item = match item {
                         Some(i) => i,
                         None => continue, // item or subscription deleted meanwhile: nothing to compare with
                     };
-                    if !item.reporting {
-                        fail(Verdict::fail("delivery_exact", "not-reporting", format!("value of non-reporting item {}", e.handle)));
+                    if !item.ever_reportable {
+                        fail(Verdict::fail("delivery_exact", "not-reporting", format!("value of an item that never could report {}", e.handle)));
                         continue;
                     }
                     // in order, each change once: a later position of the node's history
                     let hist = &self.history[&item.node];
-                    let start = if item.delivered_any { item.hist_pos + 1 } else { 0 };
+                    let start = if item.delivered_any && !item.loose { item.hist_pos + 1 } else if item.delivered_any { item.hist_pos } else { 0 };
                     match hist.iter().enumerate().skip(start).find(|(_, v)| **v == e.value) {
                         Some((i, _)) => {
                             item.hist_pos = i;
